@@ -377,3 +377,11 @@ package journal
 //@ func (Query).Into
 //@   modifies nothing
 //@   ensures [C02] [C01] @wired: result != nil && fresh(result) && result.Posting != nil && result.DayStart == nil && result.DayEnd == nil && result.Transaction == nil && result.Price == nil
+//
+// New: an empty builder; its period is the empty interval 9999-12-31 .. 0001-01-01 (so that any
+// transaction date narrows it, and the start of an empty journal's period is not the zero time).
+//@ func New
+//@   modifies nothing
+//@   ensures [C14] [C05] @empty: wfBuilder(result) && fresh(result) && len(result.days) == 0
+//@   ensures [C14] [C05] @min: result.min == 3652058
+//@   ensures [C14] [C05] @max: result.max == 0
